@@ -389,6 +389,113 @@ class _Module:
                     if _is_self_attr(t):
                         self.init_attrs.add(t.attr)
 
+    # ------------------------------------------------------------------ lumps stored on every path
+    def must_store(self, fname: str, _stack: tuple[str, ...] = ()) -> set[str]:
+        """Lump keys that BSP.<fname> stores on EVERY path that ends normally (falls off the end or returns): `if c: A = x;
+        return` followed by `A = y`, or `if c: A = x else: A = y`, store A unconditionally although each single store is
+        guarded.  A path that raises writes no file and is ignored; a loop body may run zero times (except a loop over a
+        literal, which is unrolled); an exception handler starts from what was stored before the `try`; helper methods
+        called as a statement (or as the value of an assignment / return / yield) contribute what they store on every
+        path.  As everywhere in this translator, the branch of a `self.is_vitamin` test that belongs to the VitaminSource
+        layout is left out."""
+        if fname in _stack or len(_stack) > 6 or fname not in self.methods:
+            return set()
+        stack = _stack + (fname,)
+
+        def simple(st: ast.stmt) -> set[str]:
+            out: set[str] = set()
+            targets: list[ast.AST] = []
+            if isinstance(st, ast.Assign):
+                targets = list(st.targets)
+            elif isinstance(st, (ast.AnnAssign, ast.AugAssign)):
+                targets = [st.target]
+            for t in targets:
+                for x in ([t] if not isinstance(t, (ast.Tuple, ast.List)) else t.elts):
+                    if isinstance(x, ast.Attribute) and x.attr == 'data' and isinstance(x.value, ast.Subscript) \
+                            and _is_self_attr(x.value.value) and x.value.value.attr in ('lumps', 'game_lumps'):
+                        try:
+                            out.add(self.lump_key(x.value.slice, fname))
+                        except TranslateError:
+                            pass        # reported by effects()
+            val = getattr(st, 'value', None)
+            if isinstance(val, (ast.Yield, ast.YieldFrom, ast.Await)):
+                val = val.value
+            if isinstance(val, ast.Call) and _is_self_attr(val.func) and val.func.attr in self.methods:
+                out |= self.must_store(val.func.attr, stack)
+            return out
+
+        def vit(test: ast.AST) -> str | None:
+            t = ast.unparse(test)
+            return 'body' if t == 'self.is_vitamin' else 'orelse' if t in ('not self.is_vitamin', 'not (self.is_vitamin)') else None
+
+        def meet(xs: list) -> set[str] | None:
+            xs = [x for x in xs if x is not None]
+            if not xs:
+                return None
+            out = set(xs[0])
+            for x in xs[1:]:
+                out &= x
+            return out
+
+        def block(stmts: list[ast.stmt], cur: set[str] | None) -> tuple[set[str] | None, list[set[str]]]:
+            rets: list[set[str]] = []
+            for st in stmts:
+                if cur is None:
+                    break
+                if isinstance(st, ast.Return):
+                    rets.append(cur | simple(st))
+                    cur = None
+                elif isinstance(st, ast.Raise):
+                    cur = None
+                elif isinstance(st, ast.If):
+                    a, ra = block(st.body, set(cur))
+                    b, rb = block(st.orelse, set(cur))
+                    v = vit(st.test)
+                    if v == 'body':
+                        rets += rb
+                        cur = b if b is not None else a
+                    elif v == 'orelse':
+                        rets += ra
+                        cur = a if a is not None else b
+                    else:
+                        rets += ra + rb
+                        cur = meet([a, b])
+                elif isinstance(st, ast.For) and _unrollable(st):
+                    for elt in st.iter.elts:
+                        cur, r = block(_bind_loop_target(st, elt), cur)
+                        rets += r
+                        if cur is None:
+                            break
+                elif isinstance(st, (ast.For, ast.While)):
+                    _, r = block(st.body, set(cur))
+                    _, r2 = block(st.orelse, set(cur))
+                    rets += r + r2
+                elif isinstance(st, ast.Try):
+                    b, rb = block(st.body, set(cur))
+                    hs = []
+                    for h in st.handlers:
+                        x, rx = block(h.body, set(cur))
+                        hs.append(x)
+                        rets += rx
+                    e, re_ = block(st.orelse, b) if b is not None else (None, [])
+                    rets += rb + re_
+                    fall = meet([e] + hs) if (e is not None or any(x is not None for x in hs)) else None
+                    if fall is not None:
+                        fall, rf = block(st.finalbody, fall)
+                        rets += rf
+                    cur = fall
+                elif isinstance(st, ast.With):
+                    cur, r = block(st.body, cur)
+                    rets += r
+                elif isinstance(st, (ast.FunctionDef, ast.AsyncFunctionDef, ast.ClassDef, ast.Match)):
+                    pass
+                else:
+                    cur = cur | simple(st)
+            return cur, rets
+
+        fall, rets = block(self.methods[fname].body, set())
+        return meet([fall] + rets) or set()
+
     def lump_num(self, key: str) -> int:
         if key.startswith('L:'):
             return self.lump_vals[key[2:]]
@@ -1086,9 +1193,10 @@ def translate() -> tuple[str, dict]:
         wdeps = sorted({vnum(x, v) for x in wr['views']})
         wstore = [own[0]]   # the returned bytes are stored into the main lump by BSP.save
         vit_only = []
+        must = m.must_store('_lmp_write_' + suffix)
         for key, ctx, line in wr['stores']:
             num = m.lump_num(key)
-            if not ctx or _only_vitamin(ctx):
+            if not ctx or _only_vitamin(ctx) or key in must:
                 if num not in wstore:
                     wstore.append(num)
                 if ctx:
@@ -1112,7 +1220,8 @@ def translate() -> tuple[str, dict]:
             'reader_views': sorted(rd['views']), 'writer_views': sorted(wr['views']),
             'reader_raw': sorted(rd['raw_reads']), 'writer_stores': sorted({k for k, _, _ in wr['stores']}),
             'stores_skipped_only_for_vitamin': sorted(set(vit_only)),
-            'conditional_stores': [(k, ' & '.join(c)) for k, c, _ in wr['stores'] if c and not _only_vitamin(c)],
+            'conditional_stores': [(k, ' & '.join(c)) for k, c, _ in wr['stores'] if c and not _only_vitamin(c) and k not in must],
+            'stored_on_every_path': sorted(must),
             'helpers': sorted(set(rd['helpers'] + wr['helpers'])),
         }
 
